@@ -317,3 +317,16 @@ package codec
 //@ func verifVariableSize
 //@   requires enc != nil && enc.w != nil
 //@   ensures [C22.header-size-is-bytes-written] verifWritten - old(verifWritten) == result
+
+// ---------------------------------------------------------------------------
+// C22 — the fixed header byte round-trips
+// ---------------------------------------------------------------------------
+//
+// For every frame type that fits the four type bits, unpacking the packed header byte
+// gives back the frame type and the four flags (for CONNACK: the server-version flag,
+// which takes the place of the flag nibble).
+//@ func verifFixHeaderRoundTrip
+//@   requires f.FrameType < 16
+//@   ensures [C22.fixed-header-round-trips] result.FrameType == f.FrameType
+//@   ensures [C22.fixed-header-round-trips] f.FrameType != frame.CONNACK ==> result.DUP == f.DUP && result.SyncOnce == f.SyncOnce && result.RedDot == f.RedDot && result.NoPersist == f.NoPersist
+//@   ensures [C22.fixed-header-round-trips] f.FrameType == frame.CONNACK ==> result.HasServerVersion == f.HasServerVersion
